@@ -24,7 +24,6 @@ import (
 	"github.com/gin-gonic/gin"
 
 	"github.com/ollama/ollama/api"
-	"github.com/ollama/ollama/envconfig"
 	"github.com/ollama/ollama/fs/ggml"
 	"github.com/ollama/ollama/zzverif/evid"
 	"github.com/ollama/ollama/zzverif/mcos"
@@ -108,33 +107,12 @@ func ztGGUFWith(more ggml.KV) []byte {
 
 // ---- restart: what Serve does before it listens ---------------------------------------------
 
-// ztRestart mirrors the start-up sequence of Serve (routes.go): fixBlobs, then - unless
-// pruning is disabled or a manifest is corrupt - PruneLayers and PruneDirectory.
+// ztRestart runs what Serve does before it listens: the statements of Serve's own body from
+// `blobsDir, err := GetBlobsPath("")` up to the construction of the Server (fixBlobs, the corrupt-manifest
+// check, PruneLayers, PruneDirectory), which the instrumenter copies into zzServeStartup (inst_opts.extract in
+// harness.json). A change of that sequence inside Serve is therefore a change of what the harness executes.
 func ztRestart() error {
-	blobsDir, err := GetBlobsPath("")
-	if err != nil {
-		return err
-	}
-	if err := fixBlobs(blobsDir); err != nil {
-		return err
-	}
-	if !envconfig.NoPrune() {
-		if _, err := Manifests(false); err != nil {
-			// corrupt manifests detected, skipping prune operation
-		} else {
-			if err := PruneLayers(); err != nil {
-				return err
-			}
-			manifestsPath, err := GetManifestPath()
-			if err != nil {
-				return err
-			}
-			if err := PruneDirectory(manifestsPath); err != nil {
-				return err
-			}
-		}
-	}
-	return nil
+	return zzServeStartup()
 }
 
 // ---- store snapshots -----------------------------------------------------------------------
